@@ -249,7 +249,18 @@ class LoopCheck(Check):
                 d = {"checkpoint": k, "iteration": ck["iteration"], "route": route}
                 if "C11" in P:
                     loop_checks.compare_runs(ctx, ref, res, "c11/resume", detail=d)
-                loop_checks.check_run(ctx, res, P - {"C11", "C06"}, label_suffix="@resumed")
+                if "C06" in P:
+                    # the interrupted and the resumed part together perform the iterations of
+                    # one run: the resumed run ends at temperature one having moved the
+                    # population exactly as often as was still outstanding
+                    done = ck["n_acc"]
+                    total = len(ref.kernel_inputs)
+                    ctx.prove(
+                        (not res.stopped) and res.final is not None and done + len(res.kernel_inputs) == total,
+                        "c06/resumed_completes_the_run",
+                        detail={**d, "kernel_calls_before_checkpoint": done, "kernel_calls_after_resume": len(res.kernel_inputs), "kernel_calls_of_uninterrupted_run": total},
+                    )
+                loop_checks.check_run(ctx, res, P - {"C11"}, label_suffix="@resumed")
         if "file" in routes:
             self._crash_points(ctx, cfg, fns, tmp, ref)
 
@@ -348,7 +359,7 @@ class LoopCheck(Check):
         d = env.d
         params = [f"p{k}" for k in range(d)]
         smc_loop.LOOP.current = env
-        kw = dict(smc_loop.SCHEDULES[cfg["schedule"]])
+        kw = smc_loop.schedule_kwargs(cfg["schedule"], env.N)
         kw["sampler_kwargs"] = {"n_steps": 1}
         if cfg.get("n_final"):
             kw["n_final_samples"] = env.N + 1
@@ -460,7 +471,7 @@ class LoopCheck(Check):
             xp=sx,
         )
         smc_loop.LOOP.current = env
-        kw = dict(smc_loop.SCHEDULES[cfg["schedule"]])
+        kw = smc_loop.schedule_kwargs(cfg["schedule"], env.N)
         kw["sampler_kwargs"] = {"n_steps": 1}
         env.sampler_name = "MiniPCNSMC"
         try:
